@@ -307,7 +307,7 @@ func readAllWays(text string) (map[string][]control.Paragraph, error) {
 
 var specC07Model = Register(&Spec[DocCase]{
 	Prop: "C07", Name: "model",
-	Rule: "deb822 documents rendered from a model: 0..5 paragraphs of 1..6 uniquely named fields ([A-Za-z0-9][A-Za-z0-9_.+-]*), ':' + 0..3 blanks, first line text (possibly empty; may contain ':' '#' UTF-8) with trailing blanks, 0..6 continuation lines - one field in four hundred 150..500 of them, several KiB - (marker space or tab, then ' .' or freely indented text, trailing blanks), '#' comment lines at every kind of line boundary, 1..3 blank lines between paragraphs, 0..2 before/after, LF or CRLF, final newline present or absent. Oracle: All(), a Next() loop, Unmarshal(&[]T) and a Decoder.Decode(&T) loop (T a struct embedding control.Paragraph, and T = control.Paragraph itself), Unmarshal(&[]*T), Unmarshal into a slice variable that held two elements before, Unmarshal into a variable that was decoded into before (the earlier result, kept by the caller, must still read as it did), one Next() followed by All(), one Decode(&T) followed by Decode(&[]T) on the same decoder, a Decode loop into ONE control.Paragraph variable that held something before, and two further readers read in turn while the first - at its end - is asked again and again (io.EOF every time) all return exactly the model paragraphs, and so does All() when the source is a one-byte-at-a-time reader, a half reader or a reader that delivers its last data together with io.EOF: Order = names in file order, value = first line if no continuation else logical lines joined by newline + trailing newline (a kept empty first line is accepted too). Non-trivial: >= 2 paragraphs, a continuation, a comment inside a field, CRLF or no final newline; distinct by text.",
+	Rule: "deb822 documents rendered from a model: 0..5 paragraphs of 1..6 uniquely named fields ([A-Za-z0-9][A-Za-z0-9_.+-]*), ':' + 0..3 blanks, first line text (possibly empty; may contain ':' '#' UTF-8) with trailing blanks, 0..6 continuation lines - one field in twelve hundred 150..300 of them, several KiB - (marker space or tab, then ' .' or freely indented text, trailing blanks), '#' comment lines at every kind of line boundary, 1..3 blank lines between paragraphs, 0..2 before/after, LF or CRLF, final newline present or absent. Oracle: All(), a Next() loop, Unmarshal(&[]T) and a Decoder.Decode(&T) loop (T a struct embedding control.Paragraph, and T = control.Paragraph itself), Unmarshal(&[]*T), Unmarshal into a slice variable that held two elements before, Unmarshal into a variable that was decoded into before (the earlier result, kept by the caller, must still read as it did), one Next() followed by All(), one Decode(&T) followed by Decode(&[]T) on the same decoder, a Decode loop into ONE control.Paragraph variable that held something before, and two further readers read in turn while the first - at its end - is asked again and again (io.EOF every time) all return exactly the model paragraphs, and so does All() when the source is a one-byte-at-a-time reader, a half reader or a reader that delivers its last data together with io.EOF: Order = names in file order, value = first line if no continuation else logical lines joined by newline + trailing newline (a kept empty first line is accepted too). Non-trivial: >= 2 paragraphs, a continuation, a comment inside a field, CRLF or no final newline; distinct by text.",
 	Check: func(c DocCase, r *Recorder) error {
 		nt := false
 		for _, f := range c.Feats {
